@@ -4,6 +4,7 @@ Theorems about `Just.Analyzer` (variable walker, resolvers, arity checks).
 -/
 import Just.Model.Analyzer
 import Just.Lemmas.Dfs
+import Just.Lemmas.DfsFuel
 namespace Just.Props.C03
 open Just Just.Analyzer
 
@@ -456,5 +457,40 @@ theorem all_lines_checked (m : Module) (r : Recipe) (h : m.ignoreComments = fals
     | nil => intro c; rfl
     | cons l ls ih => intro c; simp [checkLoop, ih]
   simp [h, this]
+
+/-! ### the resolvers' fuel is an artefact of the model -/
+
+/-- the fuel of the assignment resolver (number of assignments + 1) is never exhausted -/
+theorem resolveAssignments_no_fuel (m : Module) : resolveAssignments m ≠ .error .fuel := by
+  intro h
+  unfold resolveAssignments at h
+  have hf := Dfs.all_no_fuel (assignGraph m) (m.assigns.map Prod.fst)
+    (fun s hs => Dfs.lookup_isSome_mem m.assigns s (by simpa [assignGraph] using hs))
+    (m.assigns.length + 1) (by simp) (m.assigns.map Prod.fst) []
+  split at h
+  all_goals first
+    | (rename_i heq; exact hf heq)
+    | cases h
+
+/-- the fuel of the recipe resolver (number of recipes + 1) is never exhausted -/
+theorem resolveRecipes_no_fuel (m : Module) : resolveRecipes m ≠ .error .fuel := by
+  intro h
+  unfold resolveRecipes at h
+  have hf := Dfs.all_no_fuel (recipeGraph m) (m.recipes.map Recipe.name)
+    (fun s hs => by
+      simp only [recipeGraph, findRecipe, Option.isSome_map] at hs
+      cases hfind : m.recipes.find? (fun r => decide (r.name = s)) with
+      | none => rw [hfind] at hs; cases hs
+      | some r =>
+        have hmem := List.mem_of_find?_eq_some hfind
+        have hp := List.find?_some hfind
+        simp only [decide_eq_true_eq] at hp
+        exact List.mem_map.mpr ⟨r, hmem, hp⟩)
+    (m.recipes.length + 1) (by simp) (m.recipes.map Recipe.name) []
+  split at h
+  all_goals first
+    | (rename_i heq; exact hf heq)
+    | cases h
+
 
 end Just.Props.C03
